@@ -287,3 +287,81 @@ func HarnessC20Solo() {
 		zzvrt.Check("C20.solo.each-output-equals-its-solo-run", string(srcs[o]) == solo[o])
 	}
 }
+
+// HarnessC13Files: the same schemas spelled as JSON files and as YAML files (a root with a
+// property, a nullable type list, an enum, a $ref written WITHOUT extension to a sibling file
+// that --resolve-extension probing finds, and an allOf branch referring to the same file):
+// both directories generate, and generate byte-identical code.
+func HarnessC13Files() {
+	zzvrt.VFileData(zzFS+"/j/order.json", `{"$id": "https://example.com/order", "title": "An order", "type": "object",
+  "properties": {
+    "id": {"type": "integer", "minimum": 1},
+    "note": {"type": ["string", "null"], "maxLength": 10},
+    "state": {"enum": ["open", "closed", 3, null]},
+    "customer": {"$ref": "customer"},
+    "billing": {"allOf": [{"$ref": "customer"}, {"type": "object", "properties": {"vat": {"type": "string"}}, "required": ["vat"]}]}
+  },
+  "required": ["id"]}`)
+	zzvrt.VFileData(zzFS+"/j/customer.json", `{"$id": "https://example.com/customer", "type": "object",
+  "properties": {"name": {"type": "string", "minLength": 1}}, "required": ["name"]}`)
+	zzvrt.VFileData(zzFS+"/y/order.yaml", `$id: https://example.com/order
+title: An order
+type: object
+properties:
+  id:
+    type: integer
+    minimum: 1
+  note:
+    type: [string, "null"]
+    maxLength: 10
+  state:
+    enum: [open, closed, 3, null]
+  customer:
+    $ref: customer
+  billing:
+    allOf:
+      - $ref: customer
+      - type: object
+        properties:
+          vat: {type: string}
+        required: [vat]
+required: [id]
+`)
+	zzvrt.VFileData(zzFS+"/y/customer.yaml", `$id: https://example.com/customer
+type: object
+properties:
+  name:
+    type: string
+    minLength: 1
+required:
+  - name
+`)
+	maps := []SchemaMapping{{SchemaID: "https://example.com/order", RootType: "Order"}, {SchemaID: "https://example.com/customer", RootType: "Customer"}}
+	gen := func(file string) (string, error) {
+		g := zzNewFS(Config{DefaultPackageName: "example.com/gen", DefaultOutputName: "out.go", SchemaMappings: maps,
+			ResolveExtensions: []string{".json", ".yaml"}, YAMLExtensions: []string{".yml", ".yaml"}})
+		for k := range maps {
+			g.config.SchemaMappings[k].PackageName = "example.com/gen"
+		}
+		if err := g.DoFile(file); err != nil {
+			return "", err
+		}
+		return string(g.Sources()["out.go"]), nil
+	}
+	js, errJ := gen(zzFS + "/j/order.json")
+	ys, errY := gen(zzFS + "/y/order.yaml")
+	zzvrt.Cover("json-vs-yaml-files")
+	if errJ != nil || errY != nil {
+		if errJ != nil {
+			zzvrt.Note("json: " + errJ.Error())
+		}
+		if errY != nil {
+			zzvrt.Note("yaml: " + errY.Error())
+		}
+		zzvrt.Check("C13.files.both-spellings-generate", false)
+		return
+	}
+	zzvrt.Emit("json.go", js)
+	zzvrt.Emit("yaml.go", ys)
+	zzvrt.Check("C13.files.yaml-and-json-spellings-generate-identical-code", js == ys)
+}
